@@ -58,6 +58,7 @@ SHIMS = {
     "inscriptions.rs": "inscriptions.rs",
     "env.rs": "env.rs",
     "updater.rs": "index/updater.rs",
+    "settings.rs": "settings.rs",
 }
 
 # contracts attached to a shim module itself (declared inside the shim)
@@ -65,6 +66,9 @@ SHIM_CONTRACTS = {
     "index.rs": "index_contracts.rs",
     "inscriptions/inscription.rs": "inscription_contracts.rs",
     "index/updater/rune_updater.rs": "rune_updater_contracts.rs",
+    "settings.rs": "settings_contracts.rs",
+    "index/updater/inscription_updater.rs": "inscription_updater_contracts.rs",
+    "index/updater.rs": "updater_contracts.rs",
 }
 
 DEPS = ["anyhow", "bitcoin", "derive_more", "redb", "ref-cast", "serde", "serde_with", "serde_json", "regex", "hex"]
@@ -83,20 +87,32 @@ def dep_spec(v):
 def expand_extracts(text, manifest):
     out = []
     for line in text.split("\n"):
-        m = re.match(r"^(\s*)//@extract\s+(\S+)\s*::\s*(.*)$", line)
+        m = re.match(r"^(\s*)//@extract(!?)\s+(\S+)\s*::\s*(.*)$", line)
         if not m:
             out.append(line)
             continue
+        filtered = m.group(2) == "!"
+        m = re.match(r"^(\s*)//@extract!?\s+(\S+)\s*::\s*(.*)$", line)
         rel, sels = m.group(2), [s.strip() for s in m.group(3).split("::")]
         path = os.path.join(REPO, rel)
         src = open(path).read()
         it = extract.find_item(src, sels)
         first = src.count("\n", 0, it.start) + 1
         last = src.count("\n", 0, it.end) + 1
+        text, dropped = it.text, "the rest of " + rel
+        if filtered:
+            # `//@extract!`: derives of non-std traits and helper attributes of other crates are removed
+            # (serde / clap derive output is not code under contract); everything else is verbatim
+            attrs, rest = extract.split_attrs(it)
+            kept, drop = extract.filter_attrs(attrs)
+            inner = re.findall(r"^\s*#\[(?:value|serde|arg|command|clap)\b[^\n]*\]\s*\n", rest, re.M)
+            rest = re.sub(r"^\s*#\[(?:value|serde|arg|command|clap)\b[^\n]*\]\s*\n", "", rest, flags=re.M)
+            text = "\n".join(kept) + ("\n" if kept else "") + rest
+            dropped += "; attributes removed: " + ", ".join(drop + [x.strip() for x in inner])
         manifest.append({"file": rel, "item": " :: ".join(sels), "first_line": first, "last_line": last,
-                         "sha256": sha(it.text), "dropped": "the rest of " + rel})
-        out.append(f"{m.group(1)}// ---- extracted verbatim from {rel}:{first}-{last} ({' :: '.join(sels)})")
-        out.append(m.group(1) + it.text)
+                         "sha256": sha(it.text), "dropped": dropped})
+        out.append(f"{m.group(1)}// ---- extracted {'(attributes filtered) ' if filtered else 'verbatim '}from {rel}:{first}-{last} ({' :: '.join(sels)})")
+        out.append(m.group(1) + text)
         out.append(f"{m.group(1)}// ---- end of extract")
     return "\n".join(out)
 
